@@ -268,6 +268,9 @@ fn flip_bit(b: &[u8], i: usize) -> Vec<u8> {
 /// token's own ECDSA signature (computed by the reference, spec/p384_recover.py), under the specification's
 /// digest and under the digest of an implementation that forgot to bind the public key into the PAE.
 fn p384_recovered_keys_pass(acc: &mut Acc) {
+    if !Proto::V3P.enabled() {
+        return;
+    }
     let dir = crate::report::verif_dir();
     let pool = domains::key_pool(Proto::V3P);
     let mut cases: Vec<(IssueCase, String, Layer)> = Vec::new();
@@ -311,7 +314,7 @@ fn p384_recovered_keys_pass(acc: &mut Acc) {
 /// Refusing to sign is fine; if a token is produced, the only key that may verify it is the public half the
 /// key material carries (B) - in particular not A's.
 fn mismatched_halves_pass(acc: &mut Acc) {
-    for p in [Proto::V2P, Proto::V4P] {
+    for p in [Proto::V2P, Proto::V4P].into_iter().filter(|p| p.enabled()) {
         let pool = domains::key_pool(p);
         let (a, b) = (&pool[2], &pool[5]);
         let mut sk = a.sk[..32].to_vec();
@@ -548,7 +551,10 @@ fn contains(hay: &[u8], needle: &[u8]) -> bool {
 pub fn run_c06(tier: &str) -> i32 {
     let run = Run::new("C06", tier);
     let quick = tier == "quick";
-    let protos = [Proto::V3L, Proto::V4L, Proto::V3P, Proto::V4P];
+    let protos: Vec<Proto> = [Proto::V3L, Proto::V4L, Proto::V3P, Proto::V4P].into_iter().filter(|p| p.enabled()).collect();
+    if protos.is_empty() {
+        crate::report::machinery_error("C06 needs a v3 or v4 protocol; this feature configuration has none (the driver skips it)");
+    }
     let units = units_proto_layer(&protos);
     let accs = par_units(&units, |(p, l)| {
         let mut acc = Acc::default();
@@ -722,7 +728,9 @@ pub fn run_c07(tier: &str) -> i32 {
     let run = Run::new("C07", tier);
     let _ = tier;
     let mut units: Vec<(Proto, Proto)> = Vec::new();
-    for x in Proto::ALL {
+    // Y (the receiving entry point) ranges over the protocols compiled into this build, X over all eight of the
+    // specification: a header naming a protocol that is not compiled in must be refused all the same
+    for x in Proto::EVERY {
         for y in Proto::ALL {
             if x != y {
                 units.push((x, y));
@@ -731,8 +739,6 @@ pub fn run_c07(tier: &str) -> i32 {
     }
     let accs = par_units(&units, |(x, y)| {
         let mut acc = Acc::default();
-        // for public -> local confusion use an Ed25519 pair whose public half doubles as the symmetric key
-        let kx = domains::key_pool(*x)[if x.is_local() { 0 } else { 2.min(domains::key_pool(*x).len() - 1) }].clone();
         let msgs = [domains::message(17, 1), "{\"data\":\"x\"}".to_string()];
         let footers: Vec<Option<String>> = vec![None, Some("f".into())];
         let seed = seed_for(*x);
@@ -740,6 +746,25 @@ pub fn run_c07(tier: &str) -> i32 {
             let mi = c.choose("message", msgs.len());
             let fi = c.choose("footer", footers.len());
             let li = c.choose_cfg("presenting layer", 3);
+            // the other direction of the first sentence: a token that is authentic for Y but whose header
+            // names X (compiled in or not) must be refused by Y's entry points
+            {
+                let ky = domains::key_pool(*y)[if y.is_local() { 0 } else { 2.min(domains::key_pool(*y).len() - 1) }].clone();
+                let seed_y = seed_for(*y);
+                let case_y = IssueCase::new(*y, Layer::Core, &ky, seed_y.as_deref(), &msgs[mi], &footers[fi], &None);
+                if let Some(ty) = issue_with_control(&case_y, &mut acc) {
+                    let named_x = format!("{}{}", x.header(), &ty[y.header().len()..]);
+                    let mut pres = Presentation::of(&case_y, &named_x);
+                    pres.layer = Layer::ALL[li];
+                    check("C07", "authentic-for-Y-but-header-names-X", &case_y, &ty, &pres, None, &mut acc);
+                }
+            }
+            // everything below needs a token made by X's own implementation
+            if !x.enabled() {
+                return;
+            }
+            // for public -> local confusion use an Ed25519 pair whose public half doubles as the symmetric key
+            let kx = domains::key_pool(*x)[if x.is_local() { 0 } else { 2.min(domains::key_pool(*x).len() - 1) }].clone();
             let case = IssueCase::new(*x, Layer::Core, &kx, seed.as_deref(), &msgs[mi], &footers[fi], &None);
             let Some(token) = issue_with_control(&case, &mut acc) else { return };
             let relabelled = format!("{}{}", y.header(), &token[x.header().len()..]);
@@ -753,19 +778,6 @@ pub fn run_c07(tier: &str) -> i32 {
                     if acc.samples.len() < 2 && tag == "header-rewritten" {
                         acc.sample(json!({"issued_by": x.name(), "presented_to": y.name(), "layer": Layer::ALL[li].name(), "key_choice": what, "token": text}));
                     }
-                }
-            }
-            // the other direction of the first sentence: a token that is authentic for Y but whose header
-            // names X must be refused by Y's entry points
-            {
-                let ky = domains::key_pool(*y)[if y.is_local() { 0 } else { 2.min(domains::key_pool(*y).len() - 1) }].clone();
-                let seed_y = seed_for(*y);
-                let case_y = IssueCase::new(*y, Layer::Core, &ky, seed_y.as_deref(), &msgs[mi], &footers[fi], &None);
-                if let Some(ty) = issue_with_control(&case_y, &mut acc) {
-                    let named_x = format!("{}{}", x.header(), &ty[y.header().len()..]);
-                    let mut pres = Presentation::of(&case_y, &named_x);
-                    pres.layer = Layer::ALL[li];
-                    check("C07", "authentic-for-Y-but-header-names-X", &case_y, &ty, &pres, None, &mut acc);
                 }
             }
             // an attacker-made local token under the public key bytes, presented to the public verifier
